@@ -262,3 +262,19 @@ def check_meta(md, model, metapath, who):
         if not json_equal(raw, model):
             return ('meta.file', 'content_mismatch', '')
     return None
+
+
+C13_ALPHABET = [
+    {'op': 'meta_set', 'key': 'a', 'value': {'k': 'int', 'v': 1}},
+    {'op': 'meta_set', 'key': 'a', 'value': {'k': 'dict', 'v': {'x': {'k': 'list', 'v': [{'k': 'nan'}, {'k': 'none'}]}}}},
+    {'op': 'meta_set', 'key': 'b', 'value': {'k': 'nparray', 'v': [1, 2], 't': 'int16', 'two_d': False}},
+    {'op': 'meta_update', 'd': {}, 'kw': False},
+    {'op': 'meta_update', 'd': {'a': {'k': 'bool', 'v': True}, 'fs': {'k': 'ustr', 'v': 'é'}}, 'kw': True},
+    {'op': 'meta_pop', 'key': 'a', 'default': None},
+    {'op': 'meta_pop', 'key': 'a', 'default': {'k': 'none'}},
+    {'op': 'meta_pop', 'key': 'b', 'default': {'k': 'int', 'v': 7}},
+    {'op': 'meta_popitem'},
+    {'op': 'meta_del', 'key': 'a'},
+    {'op': 'reopen', 'mode': 'r+'},
+    {'op': 'meta_update', 'd': {'a': {'k': 'set'}}, 'kw': False, 'bad': True},
+]
